@@ -503,8 +503,8 @@ func runC07Case(c *C07Case, ch sched.Chooser) (c07Stats, string) {
 		go func() { wg.Wait(); close(done) }()
 		select {
 		case <-done:
-		case <-time.After(30 * time.Second):
-			return st, "requests did not complete within 30s (deadlock?)"
+		case <-time.After(120 * time.Second):
+			return st, "requests did not complete within 120s (deadlock?)"
 		}
 	}
 	// final sequential reads
